@@ -143,8 +143,7 @@ class BeliefPropagationOSDDecoder(BaseDecoder):
             self.z_decoder.update_channel_probs(probabilities_z)
 
             # Decode Z errors
-            self.z_decoder.decode(syndrome_x)
-            z_correction = self.z_decoder.osdw_decoding
+            z_correction = self.z_decoder.decode(syndrome_x)
 
             # Bayes update of the probability
             if self._channel_update:
@@ -154,8 +153,7 @@ class BeliefPropagationOSDDecoder(BaseDecoder):
                 self.x_decoder.update_channel_probs(new_x_probs)
 
             # Decode X errors
-            self.x_decoder.decode(syndrome_z)
-            x_correction = self.x_decoder.osdw_decoding
+            x_correction = self.x_decoder.decode(syndrome_z)
 
             correction = np.concatenate([x_correction, z_correction])
         else:
@@ -164,8 +162,7 @@ class BeliefPropagationOSDDecoder(BaseDecoder):
             self.decoder.update_channel_probs(probabilities)
 
             # Decode all errors
-            self.decoder.decode(syndrome)
-            correction = self.decoder.osdw_decoding
+            correction = self.decoder.decode(syndrome)
             correction = np.concatenate(
                 [correction[n_qubits:], correction[:n_qubits]]
             )
